@@ -395,6 +395,34 @@ def rule_cgscript(ctx, py):
     ctx.floor(R, 2)
 
 
+def rule_uncg_traj(ctx, py):
+    """C16.UNCG-TRAJ -- the trajectory handed back is the coarse one with its data mapped onto the original system: every
+    constructor parameter of RDTrajectory is passed, each from the matching field of the coarse trajectory"""
+    R = "C16.UNCG-TRAJ"
+    from .. import pysym
+    f = py.fn("coarsegrain.uncoarsegrain_trajectory")
+    tr, ncg, imap = pyfe.params(f)[:3]
+    calls = [c for c in pyfe.calls_in(f) if pyfe.call_name(c) == "RDTrajectory"]
+    ctx.need(len(calls) == 1, R, "uncoarsegrain_trajectory: RDTrajectory(...) not found")
+    c = calls[0]
+    init = py.fn("rdoutput.RDTrajectory.__init__")
+    ps = [p for p in pyfe.params(init) if p != "self"]
+    kw = {k.arg: k.value for k in c.keywords}
+    for i, a in enumerate(c.args):
+        kw[ps[i]] = a
+    want = {"data": "uncoarsegrain_trajectory_data(%s, %s.space, %s)" % (tr, ncg, imap), "t_sample": ("%s.t" % tr, "%s.t_sample" % tr),
+            "system": ncg, "script": "%s.script" % tr, "engine_description": "%s.engine_description" % tr,
+            "engine_option": "%s.engine_option" % tr, "cgmap": imap}
+    for p_ in ps:
+        w = want.get(p_)
+        got = pysym.isrc(kw[p_], f) if p_ in kw else None
+        okk = got is not None and (w is None or got in (w if isinstance(w, tuple) else (w,)))
+        ctx.check(okk, R, c, f._qual, "RDTrajectory(%s = %s)" % (p_, got or "<missing>"), "from the coarse trajectory / the "
+                  "original system", "the returned trajectory's `%s` is %s, expected %s: the trajectory of a coarse-grained run "
+                  "loses or mixes up this field" % (p_, got or "left to its default", w))
+    ctx.floor(R, 7)
+
+
 def run(ctx):
     py = ctx.py
     rule_pos_order(ctx, py)
@@ -406,6 +434,7 @@ def run(ctx):
     rule_edge(ctx, py)
     rule_uncg(ctx, py)
     rule_cgscript(ctx, py)
-    from .. import truth
-    truth.rule(ctx, "C16.TRUTH", ctx.py, ["simulate"], floor=3)
+    rule_uncg_traj(ctx, py)
+    from .. import lints
+    lints.run(ctx, "C16", ctx.py, ["simulate", "coarsegrain"], truth_floor=3)
     ctx.assume("conservation totals, centroid distances and identity-map equivalence are value-level and not decided")
